@@ -19,6 +19,13 @@ def one(sid, all_props):
     for n in ("src", "examples", "benches", "Cargo.toml", "Cargo.lock"):
         s, t = os.path.join("/repo", n), os.path.join(scratch, n)
         (shutil.copytree if os.path.isdir(s) else shutil.copy)(s, t)
+    base = os.environ.get("SEED_BASE")
+    if base:
+        # a seed written against an already refactored tree: the behaviour-preserving patch benign/<base> goes on first
+        rb = subprocess.run(["patch", "-p1", "-s", "-i", os.path.join(HERE, "benign", base, "patch.diff")], cwd=scratch, stdout=subprocess.PIPE, stderr=subprocess.STDOUT, text=True)
+        if rb.returncode != 0:
+            shutil.rmtree(scratch, ignore_errors=True)
+            return sid, None, "base patch does not apply"
     r = subprocess.run(["patch", "-p1", "-s", "-i", os.path.join(d, "patch.diff")], cwd=scratch, stdout=subprocess.PIPE, stderr=subprocess.STDOUT, text=True)
     if r.returncode != 0:
         shutil.rmtree(scratch, ignore_errors=True)
